@@ -535,6 +535,15 @@ func (e *schedEngine) Exec(op *Op) string {
 			return "bad-op"
 		}
 		ferr := e.st.Flush()
+		// let the records leave the pools: what is read back below comes from the files, not from the flushed pool that the
+		// primary and the index keep serving until the next flush replaces it
+		if xk, err := hex.DecodeString("1208fcfcfcfc0a0b0c0d"); err == nil {
+			if err := e.st.Put(xk, []byte{0xee}); err == nil {
+				if err2 := e.st.Flush(); err2 != nil && ferr == nil {
+					ferr = err2
+				}
+			}
+		}
 		var out []string
 		for _, k := range strings.Split(op.Arg("k"), ",") {
 			out = append(out, e.execOp("get:"+k))
